@@ -278,10 +278,10 @@ func faults(args []string) {
 
 // cell: one matrix cell printed by TLC (spec/MC_Events.tla)
 type cell struct {
-	ID     int         `json:"id"`
-	Cell   string      `json:"cell"`
-	Prefix []drive.Op  `json:"prefix"`
-	Req    drive.Req   `json:"req"`
+	ID     int        `json:"id"`
+	Cell   string     `json:"cell"`
+	Prefix []drive.Op `json:"prefix"`
+	Req    drive.Req  `json:"req"`
 }
 
 func events(args []string) {
